@@ -162,7 +162,21 @@ def txOp (s : Sess) (toks : List String) : Option (P Val String) :=
 
 def resetFault (s : Sess) : Sess := { s with m := { s.m with fc := 0 } }
 
-def stepTop (s : Sess) (toks : List String) : Sess × String :=
+/-- extension hooks (3-D maps, builders, kernels …): a transactional-op parser and a top-level
+    command handler, both returning `none` when the command is not theirs -/
+structure Hooks where
+  txOp : Sess → List String → Option (P Val String) := fun _ _ => none
+  top : Sess → List String → Option (Sess × String) := fun _ _ => none
+
+def txOpAll (h : Hooks) (s : Sess) (toks : List String) : Option (P Val String) :=
+  match h.txOp s toks with
+  | some p => some p
+  | none => txOp s toks
+
+def stepTop (h : Hooks) (s : Sess) (toks : List String) : Sess × String :=
+  match h.top s toks with
+  | some r => r
+  | none =>
   match toks with
   | ["new", dim, n, mask] =>
       match dim.toNat?, n.toNat?, mask.toNat? with
@@ -222,13 +236,13 @@ def stepTop (s : Sess) (toks : List String) : Sess × String :=
           else if t ∈ ["orbitnt", "vidnt", "eidnt", "fidnt", "volidnt"] then (t.dropEnd 2).toString :: rest
           else toks
       | [] => toks
-    match txOp s toks' with
+    match txOpAll h s toks' with
     | some p =>
         let (o, m') := atomically p s.m
         (resetFault { s with m := m' }, outStr o)
     | none => (s, "bad-op")
 
-def step (s : Sess) (line : String) : Sess × String :=
+def step (h : Hooks) (s : Sess) (line : String) : Sess × String :=
   let toks := (line.trimAscii.toString.splitOn " ").filter (· ≠ "")
   if s.inTx then
     match toks with
@@ -243,9 +257,9 @@ def step (s : Sess) (line : String) : Sess × String :=
           | .panic => "tx panic"
         (resetFault { s with m := m', inTx := false, txOps := #[] }, out)
     | _ =>
-      match txOp s toks with
+      match txOpAll h s toks with
       | some p => ({ s with txOps := s.txOps.push p }, "queued")
       | none => (s, "bad-op")
-  else stepTop s toks
+  else stepTop h s toks
 
 end HC
